@@ -168,8 +168,15 @@ def real(obj, store, skip_save, skip_load, tag):
         shutil.rmtree(base, ignore_errors=True)
 
 
-def pyskip(names, types):
-    return list(names) + [TYPES[t] for t in types]
+def pyskip(names, types, form=0):
+    """the `skip` argument in the forms the API accepts: a list, a tuple, or — for a single
+    entry — the bare string / bare type"""
+    items = list(names) + [TYPES[t] for t in types]
+    if len(items) == 1 and form % 3 == 1:
+        return items[0]
+    if form % 3 == 2:
+        return tuple(items)
+    return items
 
 
 def check_case(ctx, drv, recipe, names, types, store, idx):
@@ -177,11 +184,13 @@ def check_case(ctx, drv, recipe, names, types, store, idx):
     spec = sc.observe(obj)
     case = {"recipe": recipe, "names": names, "types": types, "store": store}
     # the spec's np scalars carry numpy dtype names; model type names are Python-level
+    form = idx if isinstance(idx, int) else 1
     shapes = {
-        "save": (pyskip(names, types), [], {"names": names, "types": types}, {}),
-        "load": ([], pyskip(names, []), {}, {"names": names}),
-        "both": (pyskip(names, types), pyskip(names, []), {"names": names, "types": types}, {"names": names}),
+        "save": (pyskip(names, types, form), [], {"names": names, "types": types}, {}),
+        "load": ([], pyskip(names, [], form + 1), {}, {"names": names}),
+        "both": (pyskip(names, types, form + 2), pyskip(names, [], form), {"names": names, "types": types}, {"names": names}),
     }
+    ctx.dist[f"skip_arg_form:{form % 3}"] += 1
     results = {}
     for shape, (ss, sl, ms, ml) in shapes.items():
         ctx.count()
@@ -327,7 +336,9 @@ def run(ctx):
             if deep and rng.chance(0.6):
                 names.append(rng.choice(deep))     # a name that occurs (also) deep in the tree
             names = sorted(set(names))
-            if rng.chance(0.4):
+            if names and rng.chance(0.25):
+                names = [rng.choice(names)]      # a single name: exercised as a bare string too
+            elif rng.chance(0.4):
                 names.append(rng.choice(["absent", "zz", "count"]))
             th = types_hit(spec)
             nested_types = sorted(t for t, ds in th.items() if max(ds) >= 1)
